@@ -155,32 +155,36 @@ def operate (defs : Defs) (op : String) (ops : List Units) : Option (Units × Bo
 inductive UTree
   | leaf (u : Units)            -- a measurement with unit `u` ([] = no unit)
   | const                       -- a plain number
-  | node (op : String) (args : List UTree)
+  | un (op : String) (a : UTree)
+  | bin (op : String) (a b : UTree)
   | powc (a : UTree) (k : Rat)   -- `a ** k`, k a constant
 
-mutual
+/-- `operate_with_units` behind the guard of `propagate_units`: every operand has a unit or is
+    a Constant, otherwise the result has no unit -/
+def guarded (defs : Defs) (op : String) (ops : List (Units × Bool × Nat)) (w : Nat) :
+    Option (Units × Bool × Nat) :=
+  if ops.all (fun r => !r.1.isEmpty || r.2.1) then
+    match operate defs op (ops.map (·.1)) with
+    | some (u, wn) => some (u, false, w + (if wn then 1 else 0))
+    | none => none
+  else some ([], false, w)
+
 /-- (`_unit` of the value, is it a Constant, number of mismatch warnings); `none` = raises -/
 def unitOf (defs : Defs) : UTree → Option (Units × Bool × Nat)
   | .leaf u => some (u, false, 0)
   | .const => some ([], true, 0)
-  | .powc a k => do
-    let (u, _, w) ← unitOf defs a
-    pure (powConst u k, false, w)
-  | .node op args => do
-    let rs ← unitOfList defs args
-    let w := rs.foldl (fun n r => n + r.2.2) 0
-    if rs.all (fun r => !r.1.isEmpty || r.2.1) then
-      let (u, wn) ← operate defs op (rs.map (·.1))
-      pure (u, false, w + (if wn then 1 else 0))
-    else pure ([], false, w)
-def unitOfList (defs : Defs) : List UTree → Option (List (Units × Bool × Nat))
-  | [] => some []
-  | t :: ts => do
-    let r ← unitOf defs t
-    let rs ← unitOfList defs ts
-    pure (r :: rs)
-end
-
+  | .powc a k =>
+    match unitOf defs a with
+    | some (u, _, w) => some (powConst u k, false, w)
+    | none => none
+  | .un op a =>
+    match unitOf defs a with
+    | some ra => guarded defs op [ra] ra.2.2
+    | none => none
+  | .bin op a b =>
+    match unitOf defs a, unitOf defs b with
+    | some ra, some rb => guarded defs op [ra, rb] (ra.2.2 + rb.2.2)
+    | _, _ => none
 
 /-! ### dimensional analysis (the specification of C08 / C18) -/
 
@@ -200,25 +204,27 @@ def dimSym : Defs → Sym → Sym → Rat
 def dimU (rdefs : Defs) (u : Units) (t : Sym) : Rat :=
   sumRat (u.map fun (p : Sym × Rat) => p.2 * dimSym rdefs p.1 t)
 
-mutual
+def isConstT : UTree → Bool
+  | .const => true
+  | _ => false
+
 /-- dimensional analysis of a formula: × adds, ÷ subtracts, constant power multiplies, sqrt
-    halves, neg / + / − keep the dimension of the first operand that has one -/
+    halves, neg / + / − keep the dimension of the operand that has one -/
 def dimT (rdefs : Defs) : UTree → Sym → Rat
   | .leaf u, t => dimU rdefs u t
   | .const, _ => 0
   | .powc a k, t => dimT rdefs a t * k
-  | .node op args, t =>
-    match opFun op, args with
-    | some .neg, [a] => dimT rdefs a t
-    | some .sqrt, [a] => dimT rdefs a t / 2
-    | some .mul, [a, b] => dimT rdefs a t + dimT rdefs b t
-    | some .div, [a, b] => dimT rdefs a t - dimT rdefs b t
-    | some .addsub, [a, b] => if isConstT a then dimT rdefs b t else dimT rdefs a t
-    | _, _ => 0
-def isConstT : UTree → Bool
-  | .const => true
-  | _ => false
-end
+  | .un op a, t =>
+    match opFun op with
+    | some .neg => dimT rdefs a t
+    | some .sqrt => dimT rdefs a t / 2
+    | _ => 0
+  | .bin op a b, t =>
+    match opFun op with
+    | some .mul => dimT rdefs a t + dimT rdefs b t
+    | some .div => dimT rdefs a t - dimT rdefs b t
+    | some .addsub => if isConstT a then dimT rdefs b t else dimT rdefs a t
+    | _ => 0
 
 /-! ### printer -/
 
